@@ -15,6 +15,7 @@ import Proofs.C11_Fixpoint
 import Proofs.C11_Axes
 import Proofs.C11_Init
 import Proofs.C11_Cubic
+import Proofs.C11_Hex
 
 namespace Atomman.C11
 open Atomman.Gen
